@@ -343,14 +343,47 @@ def base_expectation(gt, cons, args):
 
 # ------------------------------------------------------------- harness --
 def describe(G):
+    """Plain description of the delivered graph.  'views' lists disagreements
+    between the edge listing and the other views of the object (neighbour
+    lists, degrees, membership, edge count): the graph handed to the formula
+    generators must be ONE graph, whichever view they use."""
+    views = []
     if G.is_bipartite():
-        return {'type': 'bipartite', 'L': G.left_order(), 'R': G.right_order(),
-                'edges': sorted(list(map(tuple, G.edges())))}
+        E = sorted(list(map(tuple, G.edges())))
+        L, R = G.left_order(), G.right_order()
+        for u in range(1, L + 1):
+            if list(G.right_neighbors(u)) != sorted(v for (a, v) in E if a == u):
+                views.append('right_neighbors(%d)=%r' % (u, list(G.right_neighbors(u))))
+            if G.right_degree(u) != sum(1 for (a, v) in E if a == u):
+                views.append('right_degree(%d)' % u)
+        for v in range(1, R + 1):
+            if list(G.left_neighbors(v)) != sorted(a for (a, b) in E if b == v):
+                views.append('left_neighbors(%d)=%r' % (v, list(G.left_neighbors(v))))
+        if G.number_of_edges() != len(E) or any(not G.has_edge(u, v) for (u, v) in E):
+            views.append('number_of_edges/has_edge')
+        return {'type': 'bipartite', 'L': L, 'R': R, 'edges': E, 'views': views[:3]}
     if G.is_directed():
-        return {'type': 'directed', 'n': G.number_of_vertices(), 'is_dag': G.is_dag(),
-                'edges': sorted(list(map(tuple, G.edges())))}
-    return {'type': 'simple', 'n': G.number_of_vertices(),
-            'edges': sorted(list(map(tuple, G.edges())))}
+        E = sorted(list(map(tuple, G.edges())))
+        n = G.number_of_vertices()
+        for u in range(1, n + 1):
+            if list(G.successors(u)) != sorted(v for (a, v) in E if a == u):
+                views.append('successors(%d)' % u)
+            if list(G.predecessors(u)) != sorted(a for (a, v) in E if v == u):
+                views.append('predecessors(%d)' % u)
+        if G.number_of_edges() != len(E):
+            views.append('number_of_edges')
+        return {'type': 'directed', 'n': n, 'is_dag': G.is_dag(), 'edges': E, 'views': views[:3]}
+    E = sorted(list(map(tuple, G.edges())))
+    n = G.number_of_vertices()
+    for u in range(1, n + 1):
+        nb = sorted([v for (a, v) in E if a == u] + [a for (a, v) in E if v == u])
+        if list(G.neighbors(u)) != nb:
+            views.append('neighbors(%d)=%r instead of %r' % (u, list(G.neighbors(u)), nb))
+        if G.degree(u) != len(nb):
+            views.append('degree(%d)=%d instead of %d' % (u, G.degree(u), len(nb)))
+    if G.number_of_edges() != len(E) or any(not (G.has_edge(u, v) and G.has_edge(v, u)) for (u, v) in E):
+        views.append('number_of_edges/has_edge')
+    return {'type': 'simple', 'n': n, 'edges': E, 'views': views[:3]}
 
 
 def tmpdir():
@@ -474,6 +507,9 @@ def judge(case, x):
         return out, 'graph'
     if not d.get('name_is_str'):
         bad('name', 'graph has no name')
+    if d.get('views'):
+        bad('views-disagree', 'the views of the delivered graph disagree with its edge list: %s'
+            % '; '.join(d['views']))
     # structure of the base construction (options only add edges/vertices)
     base = case.get('base')      # description of the deterministic base graph
     if not opts:
